@@ -37,11 +37,11 @@ func cmpEval(r *vx.R, a, b []byte, l int, shape string) {
 	kind, msg := vx.Try(func() { got = utils.ConstantTimeCmp(a, b, l) })
 	want := bytes.Compare(a[:l], b[:l])
 	if kind != "" {
-		r.Violation("cmp:panic:"+shape, fmt.Sprintf("ConstantTimeCmp panicked (%s) on valid input", msg), cmpCase{vx.Hex(a), vx.Hex(b), l})
+		r.Violation("cmp:panic", fmt.Sprintf("ConstantTimeCmp panicked (%s) on valid input", msg), cmpCase{vx.Hex(a), vx.Hex(b), l})
 		return
 	}
 	if got != want {
-		r.Violation(fmt.Sprintf("cmp:wrong:%s:want%d:got%d", shape, want, got),
+		r.Violation(fmt.Sprintf("cmp:wrong:want%d:got%d", want, got),
 			fmt.Sprintf("ConstantTimeCmp(%x,%x,%d)=%d, lexicographic order says %d", a, b, l, got, want), cmpCase{vx.Hex(a), vx.Hex(b), l})
 	}
 	r.Shape(fmt.Sprintf("cmp:%s:%d", shape, want))
